@@ -1,5 +1,6 @@
 """Licmp4 (ICMPv4 codec sub-check: C19, C05, C06, C07, C01) configuration for ./check"""
 CONF = {
+    'coq_sample': 15,   # cases re-evaluated inside Coq by vm_compute against the extracted runner's output
     'interesting': ['truncated-prefix-of-valid', 'typecode-sweep', 'residue-payload', 'dirty-buffer', 'no-checksum',
                     'odd-payload', 'roundtrip', 'csum-solved', 'big-payload'],
     'rule': 'All 256 ICMP types with several codes (TypeCode.String on known/unknown entries); random messages decoded, serialized '
